@@ -71,6 +71,16 @@ def families(tier):
             hs = [dict(bus='A', pat='P', name='hp', prog=[('disp', 'A', 'C', 'await'), ('pause',)]), dict(bus='A', pat='C', name='hc', prog=hc),
                   dict(bus=gbus, pat='G', name='hg', prog=[('pause',)]), dict(bus='A', pat='X', name='hx', prog=[('ret', 0)])]
             add('c13.nested', f'k{k}-g{gbus}', N, hs, [('disp', 'A', 'P', 'await'), ('disp', 'A', 'X', 'await')], names=names, shape='nested')
+    # an event that completed on another bus is dispatched to the bounded bus as well and is IN FLIGHT there when the history overflows, next to younger events that
+    # are genuinely complete: the one in flight is not the one to go
+    for N in Ns:
+        if N > 3:
+            continue
+        hs = [dict(bus='A', pat='P', name='hpA', prog=[('ret', 1)]), dict(bus='B', pat='P', name='hpB', prog=[('pause',), ('ret', 2)]), dict(bus='B', pat='Z', name='hzB', prog=[('ret', 0)], kind='sync'),
+              dict(bus='B', pat='X', name='hxB', prog=[('ret', 0)])]
+        main = [('disp', 'A', 'P', 'await')] + [('disp', 'B', f'Z{i}', 'await') for i in range(N - 1)] + [('redisp', 'B', 'P'), ('pause',)] + [('disp', 'B', f'Z{N + i}', 'ff') for i in range(2)] + [('pause',), ('idle', 'B')]
+        out.append(dict(prop='C13', family='c13.completed_elsewhere_in_flight_here', id=f'c13.completed_elsewhere/N{N}', cfg=dict(cfg, bound=2), params=dict(N=N, shape='elsewhere', bounded=['B']),
+                        scn=dict(buses={'A': dict(hist=None), 'B': dict(hist=N)}, order=['A', 'B'], handlers=hs, main=main, actors=[], forwards=[], settle=3.0, watch_hist=True)))
     # a handler dispatches more children than the history holds in one burst (the oldest are evicted from history while still QUEUED), then awaits
     # one of the evicted ones / the newest one: what can be awaited must not depend on what the history still shows
     for N in Ns:
@@ -137,6 +147,12 @@ def oracle(spec, res):
             for x in evicted:
                 sx = tr.state_at(x, seq)
                 rx_post = RANK.get(sx[0] if sx else 'completed', 2)
+                # the harness's own knowledge, whatever status the library reports: a handler of x on THIS bus has started and not finished
+                running_here = any(en[2] == bus and en[4] == x and en[0] < seq and not any(ex[2] == bus and ex[3] == en[3] and ex[4] == x and en[0] < ex[0] < seq for ex in tr.exits) for en in tr.enters)
+                if running_here:
+                    kept_done = [y for y in post if y in pre and RANK[pre[y]] == 2 and not any(en[2] == bus and en[4] == y and en[0] < seq and not any(ex[2] == bus and ex[3] == en[3] and ex[4] == y and ex[0] < seq for ex in tr.exits) for en in tr.enters)]
+                    if kept_done:
+                        out.append(V('evicted_in_flight_event_while_more_evictable_remained', f'bus {bus} seq {prev_seq}->{seq}: evicted {x}, whose handler on {bus} is running, but kept completed {kept_done}'))
                 for y, sy_post in post.items():
                     if y not in pre:
                         continue
